@@ -34,7 +34,7 @@ func (f *frame) execBlock(b *ssa.BasicBlock, st *state, reach string) {
 				s := f.val(r)
 				vals = append(vals, &sym{t: f.symTerm(s), typ: r.Type(), tuple: s.tuple})
 			}
-			f.rets = append(f.rets, retRec{pos: x.Pos(), reach: reach, vals: vals, st: st})
+			f.rets = append(f.rets, retRec{blk: b, pos: x.Pos(), reach: reach, vals: vals, st: st})
 		case *ssa.Panic:
 			if vc.safety {
 				vc.oblige("safety:panic@"+vc.w.pos(x.Pos()), "", reach, "false", x.Pos(), "explicit panic is unreachable", nil)
@@ -1121,10 +1121,11 @@ func (f *frame) applyContract(c *Contract, rel string, callee *ssa.Function, arg
 	for i, rn := range c.Results {
 		envPost.vars[rn] = results[i]
 	}
+	// `records` define ghosts at the callee's exit; its postconditions may speak about the recorded values
+	f.applyRecords(c, envPost, st, reach)
 	for _, e := range c.Ensures {
 		vc.assume(reach, envPost.boolExpr(e.E))
 	}
-	f.applyRecords(c, envPost, st, reach)
 	return res
 }
 
@@ -1135,9 +1136,22 @@ func (f *frame) applyRecords(c *Contract, envPost *env, st *state, reach string)
 		if !ok {
 			fail("records: unknown ghost %s", r.Ghost)
 		}
-		v := envPost.rvalue(r.E)
 		nv := vc.fresh("g_"+r.Ghost, so)
-		vc.assume(reach, eq(nv, v.t))
+		v := f.recordValue(envPost, r)
+		if v == nil {
+			// the recorded expression names locals of the callee: at a call site the ghost is only known
+			// through the callee's postconditions
+			st.h[k] = vc.define("g_"+r.Ghost, so, ite(reach, nv, vc.hget(st, k)))
+			continue
+		}
+		if mt, isMap := v.typ.Underlying().(*types.Map); isMap && v.bound == nil && strings.HasPrefix(so, "(Array ") {
+			// a Go map recorded into a (total) ghost map: the ghost holds what a lookup yields for every key
+			ks := vc.w.so.sortOf(mt.Key())
+			val, _ := f.mapLookup(envPost.cur, mt, v.t, "rk")
+			vc.assume(reach, fmt.Sprintf("(forall ((rk %s)) (! (= (select %s rk) %s) :pattern ((select %s rk))))", ks, nv, val, nv))
+		} else {
+			vc.assume(reach, eq(nv, v.t))
+		}
 		// on paths where the call is not reached the ghost keeps its value
 		st.h[k] = vc.define("g_"+r.Ghost, so, ite(reach, nv, vc.hget(st, k)))
 	}
@@ -1415,6 +1429,20 @@ func (f *frame) execAppend(com *ssa.CallCommon, st *state, reach string, rt type
 	}
 	vc.hset(st, ek, fmt.Sprintf("(store %s %s %s)", e, nb, content))
 	ln := vc.define("applen", "Int", fmt.Sprintf("(+ (slen %s) %s)", s, addLen))
+	if vc.usesInslice() {
+		// membership lemmas for the spec builtin inslice (true of every append; not derivable by the solver, which
+		// does no induction): what was in s from lo on is in the result from lo on, and a single appended element is
+		// in the result from every lo up to the old length
+		fn := vc.memFn(sl.Elem())
+		vc.assume(reach, fmt.Sprintf("(forall ((lo Int) (k %s)) (! (=> (%s %s (soff %s) (slen %s) lo k) (%s %s 0 %s lo k)) :pattern ((%s %s (soff %s) (slen %s) lo k))))",
+			es, fn, old, s, s, fn, content, ln, fn, old, s, s))
+		if _, isStr := argT.(*types.Basic); !isStr {
+			x := f.val(com.Args[1]).t
+			xold := fmt.Sprintf("(select %s (sbase %s))", e, x)
+			vc.assume(reach, fmt.Sprintf("(=> (= (slen %s) 1) (forall ((lo Int)) (! (=> (and (<= 0 lo) (<= lo (slen %s))) (%s %s 0 %s lo (select %s (sidx %s 0)))) :pattern ((%s %s 0 %s lo (select %s (sidx %s 0)))))))",
+				x, s, fn, content, ln, xold, x, fn, content, ln, xold, x))
+		}
+	}
 	cp := vc.fresh("appcap", "Int")
 	vc.assume(reach, "(>= "+cp+" "+ln+")")
 	return &sym{t: vc.define("app", "Slice", fmt.Sprintf("(mk_slice %s 0 %s %s)", nb, ln, cp)), typ: rt}
@@ -1851,4 +1879,86 @@ func (f *frame) havocInterior(args []*sym, st *state, reach string) {
 			vc.hset(st, k, ite(reach, "(store "+h+" "+a.pl.base+" (store "+inner+" "+a.pl.idx+" "+nv+"))", h))
 		}
 	}
+}
+
+// usesInslice: does the contract of the function being verified mention the builtin inslice, directly or through a
+// predicate / spec function?  (The append lemmas carry quantifiers; they are emitted only where they are needed.)
+func (vc *FnVC) usesInslice() bool {
+	if vc.insliceUse != 0 {
+		return vc.insliceUse > 0
+	}
+	vc.insliceUse = -1
+	if vc.c == nil || !vc.w.insliceUsers[vc.pkgPath] {
+		return false
+	}
+	names := []string{"inslice("}
+	for changed := true; changed; {
+		changed = false
+		for n, d := range vc.w.defs {
+			key := shortDefName(n) + "("
+			has := false
+			for _, k := range names {
+				if k == key {
+					has = true
+				}
+			}
+			if has {
+				continue
+			}
+			for _, k := range names {
+				if strings.Contains(d.Src, k) {
+					names = append(names, key)
+					changed = true
+					break
+				}
+			}
+		}
+	}
+	var text []string
+	add := func(cs []*Clause) {
+		for _, c := range cs {
+			text = append(text, c.Src)
+		}
+	}
+	add(vc.c.Requires)
+	add(vc.c.Ensures)
+	add(vc.c.Sites)
+	for _, cs := range vc.c.LoopInv {
+		add(cs)
+	}
+	for _, cs := range vc.c.LoopStep {
+		add(cs)
+	}
+	all := strings.Join(text, "\n")
+	for _, k := range names {
+		if strings.Contains(all, k) {
+			vc.insliceUse = 1
+			return true
+		}
+	}
+	return false
+}
+
+func shortDefName(n string) string {
+	if i := strings.LastIndex(n, "."); i >= 0 {
+		return n[i+1:]
+	}
+	return n
+}
+
+// recordValue evaluates the right-hand side of a `records` clause; nil when it cannot be evaluated in this
+// environment (it names locals of the callee and is being applied at a call site).
+func (f *frame) recordValue(e *env, r Record) (v *sym) {
+	if e.f == f && f.vc.c != nil && f.c != nil && e.pointBlock != nil {
+		return e.rvalue(r.E)
+	}
+	defer func() {
+		if x := recover(); x != nil {
+			if _, ok := x.(genError); !ok {
+				panic(x)
+			}
+			v = nil
+		}
+	}()
+	return e.rvalue(r.E)
 }
